@@ -103,3 +103,34 @@ Definition client_recv_trailers (own : N) (ps : peer_settings) (bs : bytes) : re
   | RecvTooBig n mx => {| ro_result := RecvTooBig n mx; ro_written := None; ro_stop := Some lim_client_trailers_stop_code |}
   | r => {| ro_result := r; ro_written := None; ro_stop := None |}
   end.
+
+(* ---------------------------------------------------------------- how the configured limit reaches a handle *)
+(* Builder::max_field_section_size(L) -> Connection / SendRequest (-> SendRequest::clone) -> RequestStream::new
+   (-> RequestStream::split: the receive half).  Each hop copies a value; WHICH value is read from the source
+   (the lim_flow facts of Gen/GenLimits.v): the holder's own limit, the peer's settings(), or the literal 0. *)
+Definition src_value (s : lim_src) (own : N) (ps : peer_settings) : N :=
+  match s with
+  | SrcOwn => own
+  | SrcPeer => limit_in_force ps
+  | SrcZero => 0
+  end.
+
+Inductive handle :=
+| HClient (cloned : option peer_settings) (split : bool)   (* cloned = Some psc: through a clone taken when the settings cell was psc *)
+| HServerRequest                                             (* the RequestResolver that decodes the request headers *)
+| HServer (split : bool).                                    (* the RequestStream that reads request trailers *)
+
+Definition own_at (h : handle) (configured : N) (ps : peer_settings) : N :=
+  match h with
+  | HClient cloned split =>
+      let v1 := src_value lim_flow_builder_client configured ps in
+      let v2 := match cloned with Some psc => src_value lim_flow_clone v1 psc | None => v1 end in
+      let v3 := src_value lim_flow_client_stream v2 ps in
+      if split then src_value lim_flow_split_recv v3 ps else v3
+  | HServerRequest =>
+      src_value lim_flow_server_resolver (src_value lim_flow_builder_server configured ps) ps
+  | HServer split =>
+      let v2 := src_value lim_flow_server_resolver (src_value lim_flow_builder_server configured ps) ps in
+      let v3 := src_value lim_flow_server_stream v2 ps in
+      if split then src_value lim_flow_split_recv v3 ps else v3
+  end.
